@@ -27,6 +27,10 @@ PROPS = {
         "level": "other",
         "bounded": [],
     },
+    "C03": {"modules": ["c03_task", "c01_ledger"], "level": "other", "bounded": []},
+    "C04": {"modules": ["c04_schedule"], "level": "other", "bounded": []},
+    "C06": {"modules": ["c03_task", "c04_schedule"], "level": "other", "bounded": []},
+    "C11": {"modules": ["c04_schedule"], "level": "other", "bounded": []},
     "C10": {
         "modules": ["c10_containers", "c01_ledger"],
         "level": "other",
